@@ -277,8 +277,8 @@ impl Monitor for C12 {
         N_DIRECTED
             + match t {
                 Tier::Tiny => 10,
-                Tier::Quick => 10_000,
-                Tier::Thorough => 150_000,
+                Tier::Quick => 750000,
+                Tier::Thorough => 7500000,
             }
     }
     fn rule(&self) -> &'static str {
